@@ -188,3 +188,26 @@ void h_list_reverse_last_foreach (void)
 	if (g_sn == L) CANARY ("full length");
 }
 #endif
+
+/* ---- free: every node of every chain, the bucket array and the table object are released exactly once.  The loop of
+ * p_hash_table_free runs over table->size buckets; the unit uses a table object of 3 buckets (the real 101 buckets with
+ * symbolic chains did not finish in 15 minutes), every distribution of at most L nodes over them. */
+#ifndef LISTING_STUB
+void h_table_free (void)
+{
+	PHashTable *t = malloc (sizeof (PHashTable)); __CPROVER_assume (t != NULL);
+	t->size = 3; t->table = malloc (3 * sizeof (PHashTableNode *)); __CPROVER_assume (t->table != NULL);
+	t->table[0] = t->table[1] = t->table[2] = NULL;
+	unsigned nodes = nondet_uint (); __CPROVER_assume (nodes <= L);
+	for (unsigned i = 0; i < L; i++) if (i < nodes) {
+		PHashTableNode *n = malloc (sizeof (PHashTableNode)); __CPROVER_assume (n != NULL);
+		unsigned b = nondet_uint (); __CPROVER_assume (b < 3);
+		n->key = nondet_ptr (); n->value = nondet_ptr (); n->next = t->table[b]; t->table[b] = n;
+	}
+	g_frees = 0;
+	p_hash_table_free (t);
+	OBL (g_frees == nodes + 2, "free releases every node, the bucket array and the table object, each exactly once (pointer checks: no block twice)");
+	if (nodes >= 2) CANARY ("several entries");
+	CANARY ("end");
+}
+#endif
